@@ -48,6 +48,12 @@ def cells_for(tier, prop):
         for fn in ("cp_estimate", "bp_estimate"):
             for warm in ([["A", "B", "C"], ["A", "B", "C"], ["B", "A"]], [["C", "B"], ["B"], ["C", "A", "B"]]):
                 out.append(dict(NC=3, B=3, winner=winner, fn=fn, hint=None, repeat=warm))
+    if prop == "C04":
+        # final filtering: an assertion may be dropped only if the one that 'subsumes' it contradicts every order it ruled out
+        for t in (2, 3, 4):
+            out.append(dict(kind="subsume", tail=t, two=False))
+        out.append(dict(kind="subsume", tail=3, two=True))
+        out.append(dict(kind="subsume", tail=4, two=True))
     if tier != "quick":
         for winner in ["A", "B"]:
             for fn in ("cp_estimate", "bp_estimate"):
@@ -100,8 +106,159 @@ def key_of(asrtn, RU):
     return ("NEN", asrtn.winner, asrtn.loser, tuple(asrtn.eliminated))
 
 
+def _subsume(cell):
+    """NEBAssertion.subsumes(NEN): symbolic candidates (4), a symbolic tail of the given length"""
+    from .c20 import SymCand
+    stats = core.Stats()
+    ex = core.Explorer(stats=stats)
+    findings, samples = [], []
+    st = {'reach': 0}
+    R_, RU, SE = mods()
+    NCs, t = 4, cell["tail"]
+
+    class Elim:
+        """the eliminated candidates = those not in the tail (symbolic membership)"""
+        def __init__(self, tail):
+            self.tail = tail
+
+        def __contains__(self, x):
+            return bool(SB(z3.And(*[x.e != y.e for y in self.tail])))
+
+    def harness(ex):
+        w, l = z3.Int("w"), z3.Int("l")
+        tl = [z3.Int(f"t{i}") for i in range(t)]
+        lp = z3.Int("nen_loser_pos")
+        for v in [w, l] + tl:
+            ex.assume(z3.And(v >= 0, v < NCs))
+        ex.assume(w != l)
+        if t > 1:
+            ex.assume(z3.Distinct(*tl))
+        ex.assume(z3.And(lp >= 1, lp < t))
+        tail = [SymCand(x) for x in tl]
+        tails = [tuple(tail)]
+        if cell["two"]:
+            tails.append(tuple([tail[0]] + tail[2:] + [tail[1]]))
+        neb = RU.NEBAssertion("c", SymCand(w), SymCand(l))
+        lose = tail[1]
+        for i in range(2, t):
+            pass
+        nen = RU.NENAssertion("c", tail[0], tail[core.concretize_int(SV(lp))], Elim(tail))
+        nen.rules_out = list(tails)
+        inputs = lambda m: dict(neb=dict(winner=model_value(m, w), loser=model_value(m, l)), tails=[[model_value(m, x.e) for x in T] for T in tails])
+        try:
+            res = neb.subsumes(nen)
+        except core.PathAbort:
+            raise
+        except Exception as e:      # noqa
+            r, m = ex.witness()
+            if r == 'sat':
+                findings.append(dict(clause="exception", cell=cell, inputs=inputs(m), observed=repr(e)))
+            return
+        st['reach'] += 1
+        res = bool(res)
+
+        def pos(x, T):
+            r = z3.IntVal(-1)
+            for i in range(len(T) - 1, -1, -1):
+                r = z3.If(x == T[i].e, i, r)
+            return r
+        covers = z3.And(*[z3.Or(z3.And(pos(w, T) >= 0, pos(l, T) >= 0, pos(w, T) < pos(l, T)), z3.And(pos(w, T) == -1, pos(l, T) >= 0)) for T in tails])
+        if res:
+            r, m = ex.prove(covers)
+            if r == 'sat':
+                findings.append(dict(clause="an NEB assertion 'subsumes' an NEN assertion only if it contradicts every elimination order the NEN rules out",
+                                     cell=cell, inputs=inputs(m)))
+        else:
+            ex.stats.obligations += 1
+            ex.stats.discharged += 1
+        if not samples and res:
+            r, m = ex.witness(timeout_ms=2000)
+            if r == 'sat':
+                samples.append(dict(cell=f"subsumes, tail length {t}", subsumes=res, reachable_with=inputs(m)))
+    ex.run(harness)
+    notes, out = [], []
+    for fd in findings[:1]:          # one confirmation search per cell is enough
+        from symx.run import _jsonable
+        import json as _json
+        fj = _json.loads(_json.dumps(_jsonable(fd)))
+        rp = _subsume_replay(fj)
+        if rp["reproduced"]:
+            fd["replay"] = rp
+            out.append(fd)
+        else:
+            notes.append(f"unconfirmed lemma failure (subsumption): {fj['inputs']}: {rp['detail']}")
+    return dict(stats=stats.as_dict(), findings=out, samples=samples, notes=notes, vacuous=(st['reach'] == 0 and not findings))
+
+
+def _subsume_replay(f, budget=6000):
+    """a failing subsumption lemma is not itself a violation of C04: confirm it by a seeded search over random profiles on the real
+    search code, looking for a returned set that leaves an alternative elimination order uncontradicted"""
+    import random
+    import io
+    R_ = loader.real_module("shangrla.raire.raire")
+    RU = loader.real_module("shangrla.raire.raire_utils")
+    SE = loader.real_module("shangrla.raire.sample_estimator")
+    inp = f["inputs"]
+    w, l = str(inp["neb"]["winner"]), str(inp["neb"]["loser"])
+    tails = [tuple(str(x) for x in T) for T in inp["tails"]]
+    cands4 = [str(i) for i in range(4)]
+    neb = RU.NEBAssertion("c", w, l)
+    nen = RU.NENAssertion("c", tails[0][0], tails[0][1], [c for c in cands4 if c not in tails[0]])
+    nen.rules_out = set(tails)
+    try:
+        res = neb.subsumes(nen)
+    except Exception as e:      # noqa
+        return dict(reproduced=True, detail=f"raised {e!r}")
+    lemma_fails = False
+    if res:
+        for T in tails:
+            rest = [c for c in cands4 if c not in T]
+            for pre in itertools.permutations(rest):
+                pi = list(pre) + list(T)
+                if not pi.index(w) < pi.index(l):
+                    lemma_fails = True
+    if not lemma_fails:
+        return dict(reproduced=False, detail="subsumption lemma holds on the real code")
+    rnd = random.Random(20261003)
+    for trial in range(budget):
+        nc = rnd.choice((4, 5))
+        cands = [chr(65 + i) for i in range(nc)]
+        ballots = []
+        for _ in range(rnd.randint(4, 8)):
+            k = rnd.randint(1, nc)
+            rk = rnd.sample(cands, k)
+            ballots += [rk] * rnd.randint(1, 25)
+        # reported winner = IRV winner of the profile
+        standing = list(cands)
+        while len(standing) > 1:
+            tal = {c: sum(1 for b in ballots if next((x for x in b if x in standing), None) == c) for c in standing}
+            standing.remove(min(standing, key=lambda c: (tal[c], c)))
+        winner = standing[0]
+        cvrs = {i: {"c": {c: j for j, c in enumerate(b)}} for i, b in enumerate(ballots)}
+        for fn in (SE.cp_estimate, SE.bp_estimate):
+            try:
+                out = R_.compute_raire_assertions(RU.Contest("c", cands, winner, len(ballots), order=[]), cvrs, winner, fn, False, agap=0)
+            except Exception as e:      # noqa
+                return dict(reproduced=True, detail=f"compute_raire_assertions raised {e!r} on profile {_compress(ballots)} (winner {winner})")
+            if not out:
+                continue
+            ret = [key_of(a, RU) for a in out]
+            for pi in itertools.permutations(cands):
+                if pi[-1] != winner and not any(contradicts(k, pi) for k in ret):
+                    return dict(reproduced=True, detail=f"profile {_compress(ballots)}, reported winner {winner}, {fn.__name__}: elimination order "
+                                                        f"{''.join(pi)} is not excluded by the returned assertions {ret} (trial {trial})")
+    return dict(reproduced=False, detail=f"subsumption lemma fails on the real code but no uncovered elimination order was found in {budget} random profiles")
+
+
+def _compress(ballots):
+    from collections import Counter
+    return [(list(k), v) for k, v in Counter(tuple(b) for b in ballots).items()]
+
+
 def run_cell(cell, want):
     """want: set of clause families to check: 'C04', 'C15'"""
+    if cell.get("kind") == "subsume":
+        return _subsume(cell)
     stats = core.Stats()
     ex = core.Explorer(stats=stats)
     findings, samples = [], []
@@ -267,6 +424,8 @@ def run_cell(cell, want):
 # ---------------------------------------------------------------------------------------------
 def replay(f, want):
     cell, inp = f["cell"], f["inputs"]
+    if cell.get("kind") == "subsume":
+        return _subsume_replay(f)
     R_ = loader.real_module("shangrla.raire.raire")
     RU = loader.real_module("shangrla.raire.raire_utils")
     SE = loader.real_module("shangrla.raire.sample_estimator")
